@@ -18,6 +18,7 @@ AST
           {"k":"for","init":stmt,"c","step":stmt,"b":[stmt]}
           {"k":"switch","e","cases":[{"v":expr|NONE,"b":[stmt]}]} | {"k":"ret","e":expr|NONE}
  lv       {"k":"var","n"} | {"k":"idx","a","e"} | {"k":"deref","e"}
+ gdecl may carry "lenx": expr, the array size as a constant expression; {"k":"sizeof","ty","n":expr} is sizeof(T[n])
  expr     lv | {"k":"lit","v":int} | {"k":"blit","v":bool} | {"k":"un","op":"-"|"+"|"not","a"}
           | {"k":"bin","op","a","b"} | {"k":"cast","ty","a"} | {"k":"call","f","args"} | {"k":"addr","lv"}
 """
@@ -160,6 +161,8 @@ def typeof(e, env):
     if k == "call":
         f = env.f.get(e["f"])
         return f["ret"] if f else None
+    if k == "sizeof":
+        return "i32"
     return None
 
 
@@ -190,6 +193,8 @@ def c3_expr(e):
         return "cast<%s>(%s)" % (c3type(e["ty"], e.get("alt", False)), c3_expr(e["a"]))
     if k == "call":
         return "%s(%s)" % (e["f"], ", ".join(c3_expr(a) for a in e["args"]))
+    if k == "sizeof":
+        return "sizeof(%s[%s])" % (c3type(e["ty"]), c3_expr(e["n"]))
     raise ValueError(k)
 
 
@@ -203,7 +208,9 @@ def c3_decl(d, name=None):
     t = c3type(d["ty"], d.get("alt", False))
     if d.get("ptr"):
         t += "*"
-    if d.get("len"):
+    if d.get("lenx"):
+        t += "[%s]" % c3_expr(d["lenx"])
+    elif d.get("len"):
         t += "[%d]" % d["len"]
     return "%s %s" % (t, name or d["n"])
 
@@ -302,6 +309,8 @@ def to_src(prog):
             return {"k": "cast", "ty": e["ty"], "a": ex(e["a"])}
         if k == "call":
             return {"k": "call", "f": e["f"], "args": [ex(a) for a in e["args"]]}
+        if k == "sizeof":
+            return {"k": "sizeof", "ty": e["ty"], "n": ex(e["n"])}
         raise ValueError(k)
 
     def st(s):
@@ -331,6 +340,7 @@ def to_src(prog):
 
     return {"consts": [{"n": c["n"], "ty": c["ty"], "e": ex(c["e"])} for c in prog.get("consts", [])],
             "globals": [{"n": g["n"], "ty": g["ty"], "ptr": bool(g.get("ptr")), "len": g.get("len", 0),
+                         "lenx": ex(g["lenx"]) if g.get("lenx") else {"k": "none"},
                          "init": [ex(x) for x in g["init"]]} for g in prog["globals"]],
             "funcs": [{"n": f["n"], "ret": f["ret"],
                        "params": [{"n": p["n"], "ty": p["ty"], "ptr": bool(p.get("ptr"))} for p in f["params"]],
@@ -375,6 +385,8 @@ def c_expr(e, env):
     if k == "call":
         f = env.f[e["f"]]
         return "%s(%s)" % (e["f"], ", ".join(c_conv(a, p, env) for a, p in zip(e["args"], f["params"])))
+    if k == "sizeof":
+        return "((int32_t)sizeof(%s[%s]))" % (CNAME[e["ty"]], c_expr(e["n"], env))
     raise ValueError(k)
 
 
@@ -469,7 +481,8 @@ def render_c_main(prog, f, vecs):
         if g["init"]:
             vals = ["(%s)%s" % (CNAME[g["ty"]], c_expr(x, genv)) for x in g["init"]]
             init = " = {%s}" % ", ".join(vals) if g["len"] else " = " + vals[0]
-        out.append("%s%s;" % (c_decl(g), init))
+        decl = c_decl(g) if not g.get("lenx") else "%s %s[%s]" % (CNAME[g["ty"]], g["n"], c_expr(g["lenx"], genv))
+        out.append("%s%s;" % (decl, init))
     for fn in prog["funcs"]:
         env = Env(prog, fn)
         out.append("%s %s(%s) {" % (CNAME[fn["ret"]], fn["n"], ", ".join(c_decl(p) for p in fn["params"]) or "void"))
@@ -483,7 +496,8 @@ def render_c_main(prog, f, vecs):
     # main: every argument selects an argument vector; the globals are restored to their initial image before each run
     obs = [g for g in prog["globals"]]
     for g in obs:
-        out.append("static %s;" % c_decl(dict(g, n=g["n"] + "__init")))
+        out.append("static %s;" % (c_decl(dict(g, n=g["n"] + "__init")) if not g.get("lenx") else
+                                  "%s %s__init[%s]" % (CNAME[g["ty"]], g["n"], c_expr(g["lenx"], genv))))
     out.append("int main(int argc, char **argv) {")
     for g in obs:
         out.append("  memcpy(&%s__init, &%s, sizeof %s);" % (g["n"], g["n"], g["n"]))
@@ -503,7 +517,7 @@ def render_c_main(prog, f, vecs):
             continue
         ct, _, fmt = c_print(g["ty"])
         if g["len"]:
-            out.append("    for (int j = 0; j < %d; j++) printf(\"G %s[%%d] %s\\n\", j, (%s)%s[j]);" % (g["len"], g["n"], fmt, ct, g["n"]))
+            out.append("    for (int j = 0; j < (int)(sizeof %s / sizeof %s[0]); j++) printf(\"G %s[%%d] %s\\n\", j, (%s)%s[j]);" % (g["n"], g["n"], g["n"], fmt, ct, g["n"]))
         else:
             out.append("    printf(\"G %s %s\\n\", (%s)%s);" % (g["n"], fmt, ct, g["n"]))
     out.append("    fflush(stdout);")
@@ -591,8 +605,16 @@ def FN(name, ret, params, body):
             "body": list(body)}
 
 
-def G(n, ty, init=(), ln=0, ptr=False):
-    return {"n": n, "ty": ty, "ptr": ptr, "len": ln, "init": list(init)}
+def G(n, ty, init=(), ln=0, ptr=False, lenx=None):
+    """lenx: the array size as a constant expression (ln is then its intended value, used for the printed copy only)."""
+    g = {"n": n, "ty": ty, "ptr": ptr, "len": ln, "init": list(init)}
+    if lenx is not None:
+        g["lenx"] = lenx
+    return g
+
+
+def SIZEOF(ty, n):
+    return {"k": "sizeof", "ty": ty, "n": n}
 
 
 def PROG(funcs, globals_=(), consts=()):
